@@ -87,6 +87,9 @@ def check(F, rep):
             rep.missing("server", "handle_relay_ws_upgrade")
             return
         h = rep.fn(cands[0])
+    # a maintainer may move the negotiation into a private helper: analyse the inlined view
+    from ..inline import inlined
+    h = inlined(F, h)
     du = defuse(h)
     sel = find_calls(h, regex=ORD_METHODS)
     sel = [(b, t) for b, t in sel if "ProtocolVersion" in h.locals[t["dest"]["l"]]]
